@@ -129,6 +129,12 @@ class Models:
                 continue
             if V.sort_of(x) not in ("int", "bool"):
                 raise Unsupported("non-integer array index %r @%s" % (x, line))
+            if is_z3(x) and not z3.is_int_value(x):
+                xs_ = z3.simplify(x)
+                if z3.is_int_value(xs_):
+                    x = xs_         # e.g. a cell of a concrete integer table read at concrete positions
+            if is_z3(x) and z3.is_int_value(x):
+                x = x.as_long()
             if not is_z3(x) and x < 0:
                 x = arith("+", n, x)
             if is_z3(x) or is_z3(n):
